@@ -15,10 +15,19 @@ Proof.
   apply IH. intros y Hy. apply H. now right.
 Qed.
 
+Lemma live_schemes_shape bs bs' : Forall2 same_shape bs bs' -> live_schemes bs = live_schemes bs'.
+Proof.
+  induction 1 as [|b b' r r' Hs Hr IH]; [reflexivity|].
+  unfold live_schemes in *. cbn [flat_map]. destruct Hs as (E1 & E2 & _). rewrite E1, E2, IH. reflexivity.
+Qed.
+
 Section Frame.
   Variable j : nat.
   Variables P P' : list backend.
   Hypothesis Hd : differ_only_at j P P'.
+
+  Lemma live_schemes_same : live_schemes P = live_schemes P'.
+  Proof. destruct Hd as [H _]. now apply live_schemes_shape. Qed.
 
   Lemma ans_same b m a : b <> j -> ans P b m a = ans P' b m a.
   Proof. intros H. now apply (ans_elsewhere j). Qed.
@@ -139,6 +148,7 @@ Section Frame.
       cbn [fst] in Hn. f_equal. f_equal. apply fold_res_ext. intros b Hb acc.
       assert (b <> j) by (eapply (not_called_map _ (fun b => b)); [|exact Hn|exact Hb]; intros x; eauto).
       unfold refresh_step. now rewrite ans_same.
+    - (* Core.get_uri_schemes *) now rewrite live_schemes_same.
   Qed.
 End Frame.
 
